@@ -185,8 +185,14 @@ func VerifC10_Composed() {
 		wantDisplay += seq[i].String() + "\n"
 	}
 	w := &c11Writer{}
+	// the source: everything at once and then EOF, or in chunks of seven
+	// bytes with the last chunk and EOF reported by the same call
+	src := &c11Source{data: in}
+	if shape != 5 && verifParam("source", 0, 1) == 1 {
+		src.chunk, src.eofWithData = 7, true
+	}
 	verifWitness("reached")
-	HandleMessages(verifTimeOf(1676376000*1000000000), &c11Source{data: in}, w, cfg)
+	HandleMessages(verifTimeOf(1676376000*1000000000), src, w, cfg)
 	verifWitness("returned")
 	verifQuiesce()
 	verifAssert("output-is-exactly-the-valid-frames", verifBytesEq(w.data, wantFrames))
